@@ -439,6 +439,9 @@ func (fr *Frame) valEq(st *State, a, b Val, t types.Type) Term {
 		}
 		panic(unsupported("comparison of pointer-like values"))
 	}
+	if a.K == KNormal && b.K == KNormal && len(a.C) != len(b.C) {
+		panic(unsupported("comparison of values with different layouts"))
+	}
 	switch u := t.Underlying().(type) {
 	case *types.Slice:
 		// Go only allows comparison with nil; in contracts == on slices is header identity
